@@ -8,7 +8,7 @@ CONSTANTS
   GapToks = {}
   Ignorables = {}
   MaxGaps = 0
-  PkgVary = TRUE
+  PkgVary = "all"
 CONSTRAINT GapBound
 INVARIANTS PrefixOK Sorted Refines Dump
 CHECK_DEADLOCK FALSE
